@@ -378,7 +378,16 @@ class Hooks(BaseHooks):
                     continue
                 opt, rho = qalg.krylov_min_residual(A, b, xprev, m, with_rho=True)
                 opt /= nb
-                if rho < 1e-5:
+                # conditioning of the oracle quantity itself: the same minimum from a restart
+                # iterate perturbed at the 1e-13 level (far below anything the property
+                # distinguishes).  If that moves the minimum, the minimum is not a stable
+                # number to compare against.
+                pr = np.random.Generator(np.random.PCG64(m + 17))
+                xpert = qalg.from_comps(qalg.comps(xprev) * (1.0 + 1e-13 * pr.standard_normal(qalg.comps(xprev).shape)))
+                opt2 = qalg.krylov_min_residual(A, b, xpert, m) / nb
+                unstable = abs(opt - opt2) > 1e-6 * max(opt, opt2) + 1e-14
+                opt = max(opt, opt2)
+                if rho < 1e-5 or unstable:
                     # the m-dimensional Krylov space is (nearly) invariant before its last
                     # vector: Arnoldi then normalises remainders of relative size rho, which
                     # amplifies rounding by 1/rho, and the attained minimum is not a stable
